@@ -52,7 +52,7 @@ for _pid, _why in [
 ]:
     na(_pid, _why)
 
-prop("C02", ["sql_prec", "static_eval", "operator_tpl", "rel_names", "lower_cols", "vec_utils"],
+prop("C02", ["sql_prec", "static_eval", "operator_tpl", "rel_names", "lower_cols", "vec_utils", "group_take"],
      not_covered="evaluation inside the database; dialect templates beyond the strengths they declare; sites that build SQL operands "
                  "without translate_operand (process_concat, process_array_in, try_into_between) are not yet under contract")
 claim("C02",
@@ -69,7 +69,7 @@ claim("C02",
       "Oracle = SQLite's documented precedence table (the executable grammar here). translate_expr is external (uninterpreted result, "
       "Context state not modelled); sqlparser enums are mechanically generated skeletons; sqlparser's Display is trusted to print trees as written.")
 
-prop("C01", ["split_order", "take_range", "operator_tpl", "vec_utils"],
+prop("C01", ["split_order", "take_range", "operator_tpl", "vec_utils", "group_take"],
      not_covered="anchor_split cid redirection, preprocess (distinct/union recognition), lowering, flattening, the other pluck call sites of translate_select_pipeline (select / sort / take / join): hash-map threaded folds over three "
                  "IRs; a violation there is invisible to these contracts")
 claim("C01",
@@ -83,7 +83,9 @@ claim("C01",
       "TRUE and count is COUNT(*) without a default (rows CO.<dialect>.<fn>, read from the file on every run); the WHERE / HAVING split of translate_select_pipeline: "
       "WHERE is built from exactly the filters before the first aggregate / union of the SELECT's pipeline, HAVING from those after it, in pipeline order, no filter "
       "left behind or lost (vec_utils WH1-4), on top of full contracts for the two helpers it uses - Vec::pluck is a stable partition by a fallible conversion "
-      "(PL1-2, loop invariant PLI, any length) and Vec::break_up cuts at the first match (BU1-3). "
+      "(PL1-2, loop invariant PLI, any length) and Vec::break_up cuts at the first match (BU1-3); a grouped take becomes DISTINCT only for `take 1` without an order "
+      "over a key that is the whole row, DISTINCT ON only for `take 1`, and otherwise a ROW_NUMBER() filter whose condition holds exactly for the positions kept "
+      "(group_take DT1-4, RN1). "
       "NOT proved: the end-to-end sentence of C01 (semantic preservation of the whole compiler).",
       "Oracle: SQL's logical clause order. HashSet<String>, strum AsRefStr, contains_any, the filter/fold in can_materialize and "
       "infer_complexity_expr are trusted by contract; split_off_back's loop and anchor_split are not under contract.")
@@ -94,8 +96,8 @@ def _c04_split(name):
             or lab == "SO1.Take.Compute" or lab.endswith(".safety"))
 
 
-prop("C04", ["window_frame", "split_order", "lower_cols"], select={"split_order": _c04_split, "lower_cols": lambda n: n.split(".", 1)[1] in ("DC5", "DC6") or n.endswith(".safety")},
-     not_covered="how Lowerer.window is set from partition / sort / frame (lower_pipeline over the flattened transforms), row-count preservation, create_filter_by_row_number")
+prop("C04", ["window_frame", "split_order", "lower_cols", "group_take"], select={"split_order": _c04_split, "lower_cols": lambda n: n.split(".", 1)[1] in ("DC5", "DC6") or n.endswith(".safety")},
+     not_covered="how Lowerer.window is set from partition / sort / frame (lower_pipeline over the flattened transforms), row-count preservation, the window of the ROW_NUMBER() column")
 claim("C04",
       "PARTIAL. Proved on the real code, for all inputs: the window transform maps expanding / rolling:n / rows / range to exactly the documented "
       "(kind, start, end) with rolling:n = rows:(1-n)..0 and no overflow (WF1a-e); bound sign -> n PRECEDING / CURRENT ROW / n FOLLOWING, open "
@@ -104,7 +106,8 @@ claim("C04",
       "frame in effect on entry (FL1-3); a windowed compute has complexity Windowed and is never inlined where a requirement allows less, a filter "
       "never shares a SELECT with a preceding compute unless it is a HAVING, and reorder() never hoists a windowed compute over a take "
       "(split_order IC1, CM1, SO1c, RO1); an expression that needs a window always becomes a Compute of its own carrying the Lowerer's current window, and an "
-      "expression that does not carries none (lower_cols DC5-6). NOT proved: how the current window is computed from partition / sort / frame, row-count preservation.",
+      "expression that does not carries none (lower_cols DC5-6); `take a..b` inside a group is DISTINCT / DISTINCT ON only when exactly the first row is kept and "
+      "otherwise a filter on ROW_NUMBER() that holds exactly for positions a..b (group_take DT1-4, RN1). NOT proved: how the current window is computed from partition / sort / frame, row-count preservation.",
       "Flattener::fold_expr is external (ghost log of (expression, frame in effect)); slices drop the rest of resolve_special_func / "
       "translate_windowed; unpack_as_int_literal and sqlparser value construction are trusted by contract.")
 
@@ -213,7 +216,7 @@ def _safety(name):
 
 
 _ALL_UNITS = ["take_range", "sort_take", "split_order", "window_frame", "dialect_select", "ident_quote", "ids_names", "toposort", "rq_tables",
-              "select_shape", "span_units", "sql_prec", "prql_prec", "literals", "set_ops", "desugar", "resolve_guards", "lex_strings", "limit_clause", "static_eval", "operator_tpl", "rel_names", "lower_cols", "vec_utils"]
+              "select_shape", "span_units", "sql_prec", "prql_prec", "literals", "set_ops", "desugar", "resolve_guards", "lex_strings", "limit_clause", "static_eval", "operator_tpl", "rel_names", "lower_cols", "vec_utils", "group_take"]
 prop("C12", _ALL_UNITS, select={u: _safety for u in _ALL_UNITS},
      not_covered="every function that is not under contract (~150 unwrap/expect sites, todo!() in type_intersection, panic!(cannot find cid) in lookup_cid), "
                  "recursion depth, chumsky, time bounds")
